@@ -214,6 +214,7 @@ def run(ctx, module, weights, tags, n_quick=250, len_quick=60, n_thorough=4000, 
         small = hist.shrink(ex, model, ops, props=tags)
         text, mf, rc = hist.side_by_side(ex, model, small)
         body = ["failing history (shrunk from %d to %d ops; configuration %s); the property is evaluated on the implementation's own observations:" % (len(ops) - 1, len(small) - 1, nm),
+                "what failed in the full run, at op %d of the unshrunk history: %s" % (k, msg),
                 "", text, "", "ops (replay with: bin/check %s --replay <this file>):" % ctx.prop]
         body += ["OP " + o for o in small]
         ctx.violation("ops", "\n".join(body), True)
